@@ -76,6 +76,8 @@ func (k Keeper) AddAllowedBidders(ctx context.Context, auctionId uint64, allowed
 		if err != nil {
 			return err
 		}
+		// Store the canonical form of the address (see PlaceBid)
+		ab.Bidder = bidder.String()
 		if err := k.AllowedBidder.Set(ctx, collections.Join(auctionId, bidder), ab); err != nil {
 			return err
 		}
